@@ -37,6 +37,8 @@ impl DistributedWriteRouter {
         for _attempt in 0..MAX_ROUTE_ATTEMPTS {
             // Get assigned node for this shard
             let node_id = self.assignments.assign_shard(shard_id).await?;
+            #[cfg(feature = "verif_hooks")]
+            crate::verif_hooks::pause_point("cluster.route_write.after_assign").await;
 
             // Get node info
             match self.nodes.get_node(&node_id).await {
